@@ -75,7 +75,48 @@ func detailObsLine(t []string) string {
 	return "ok " + canon(vm.Ret) + " d=" + hx(d1) + " m=" + hx(vm.Matched) + " idem=" + idem + " pure=" + same
 }
 
+// detailrerun <cfg> <seed> <hexsrc> : Parse once, evaluate, read the text, evaluate AGAIN (RunAfterParsed) — reports the second evaluation
+// in detailobs' format: its text must explain ITS result
+func detailRerunLine(t []string) string {
+	if len(t) != 4 {
+		return "bad-op"
+	}
+	cfg, ok := parseCfg(t[1])
+	src, ok2 := unhx(t[3])
+	if !ok || !ok2 {
+		return "bad-op"
+	}
+	vm, ok := newVM(cfg, t[2])
+	if !ok {
+		return "bad-op"
+	}
+	if err := vm.Parse(src); err != nil {
+		return "err " + hx(err.Error())
+	}
+	if err := vm.RunAfterParsed(); err != nil {
+		return "err " + hx(err.Error())
+	}
+	_ = vm.GetDetailText()
+	if err := vm.RunAfterParsed(); err != nil {
+		return "err " + hx(err.Error())
+	}
+	before := canon(vm.Ret) + " " + canonAttrs(vm.Attrs) + " " + seedOf(vm)
+	d1 := vm.GetDetailText()
+	d2 := vm.GetDetailText()
+	after := canon(vm.Ret) + " " + canonAttrs(vm.Attrs) + " " + seedOf(vm)
+	same := "1"
+	if before != after {
+		same = "0"
+	}
+	idem := "1"
+	if d1 != d2 {
+		idem = "0"
+	}
+	return "ok " + canon(vm.Ret) + " d=" + hx(d1) + " m=" + hx(vm.Matched) + " idem=" + idem + " pure=" + same
+}
+
 func init() {
 	handlers["detail"] = detailLine
+	handlers["detailrerun"] = detailRerunLine
 	handlers["detailobs"] = detailObsLine
 }
